@@ -232,7 +232,7 @@ func ruleIDAllocator(c *Ctx) {
 		for ai, alt := range alts {
 			has := false
 			for _, e := range alt {
-				vals := valueAlternatives(e, 3)
+				vals := pathAlternatives(P, s.Fn, e, s.If, 3) // as they are when the transaction is built
 				allKey := len(vals) > 0
 				for _, v := range vals {
 					isKeyCmp := false
